@@ -1429,6 +1429,7 @@ def rdkit_roundtrip(ctx, rng, m, chem, n_rings=0):
         if ids != list(range(depth)):
             ctx.fail("rdkit_conformers", "%s: conformer ids are %r; documented: ids starting from 0, one per model"
                      % (what, ids))
+    bonds_before = [(b.GetBeginAtomIdx(), b.GetEndAtomIdx(), str(b.GetBondType()), b.GetIsAromatic()) for b in rdmol.GetBonds()]
     try:
         y, wl = rdkit_call(ctx, lambda: rd.from_mol(rdmol, **from_kw), "from_mol")
     except ValueError as e:
@@ -1445,6 +1446,15 @@ def rdkit_roundtrip(ctx, rng, m, chem, n_rings=0):
     as_array = isinstance(conf, int)
     want = coords[conf] if as_array else coords
     compare_rdkit(ctx, m, want, y, as_array, exp_bonds, std, extra, chem and not kekulize, what)
+    # reading must not change the caller's Mol: a second read of the same Mol gives the same structure
+    ctx.oracle("rdkit_mol_untouched")
+    bonds_after = [(b.GetBeginAtomIdx(), b.GetEndAtomIdx(), str(b.GetBondType()), b.GetIsAromatic()) for b in rdmol.GetBonds()]
+    if bonds_after != bonds_before:
+        k = next(i for i in range(len(bonds_before)) if bonds_before[i] != bonds_after[i])
+        ctx.fail("rdkit_mol_untouched", "%s changed the caller's Mol: bond %r became %r" % (what, bonds_before[k], bonds_after[k]))
+    y2, _ = rdkit_call(ctx, lambda: rd.from_mol(rdmol, **from_kw), "from_mol")
+    if not (y2 == y) or y2.bonds.as_set() != y.bonds.as_set():
+        ctx.fail("rdkit_mol_untouched", "%s: reading the same Mol twice gives different structures" % what)
     ctx.state(("rdkit", chem, depth, as_stack, kekulize, dative, str(conf), tuple(sorted(set(m.bonds.values()))),
                tuple(sorted(k for k, _ in extra.values())), bool(std), m.charge is None))
     ctx.mark_nontrivial(bool(m.bonds) and (depth >= 2 or n_rings > 0 or bool(extra) or (dative and has_coord_bond)
